@@ -44,7 +44,20 @@ def design_level(rep):
     rep.notes.append("MC_Macros: %d programs (macros with parameters, calls in taken/untaken if-else branches, a constant named like a macro): RefsInverse, "
                      "CallsDenoteMacros, ParamsApart, FreshRenameIsCaptureFree hold; witness: shadowed calls exist" % r2.distinct)
     rep.notes.append("MC_Scopes: %d programs; AgreesWithAsm, RefsInverse, FreshRenameIsCaptureFree hold; witnesses: error-free programs and capturing renames exist" % r.distinct)
-    return D.tlc_cases(r), D.tlc_cases(r2)
+    mi = os.path.join(SPEC, "MC_Imports.tla")
+    r3 = V.tlc(mi, cfg=os.path.join(SPEC, "MC_Imports.cfg"), workers=4, timeout=1200, tag="C16-mi")
+    rep.add_tlc(r3)
+    if r3.invariant_violated:
+        rep.violations.append({"why": "design level: MC_Imports invariant violated", "replay": {"tlc_output": V.tail(r3.out, 60)}, "id": "MC_Imports"})
+        return None
+    if r3.rc != 0 or "Error:" in r3.out:
+        raise V.ToolError("MC_Imports failed:\n" + V.tail(r3.out, 40))
+    for w in ("alias", "good"):
+        if not V.tlc(mi, cfg=os.path.join(SPEC, "MC_Imports_vac_%s.cfg" % w), workers=2, timeout=600, tag="C16-vac-imp-" + w).invariant_violated:
+            raise V.ToolError("vacuous MC_Imports space: witness '%s' not found" % w)
+    rep.notes.append("MC_Imports: %d instances (import * / * as m / a as x, b; parameter block): RefsInverse, AliasDenotesSymbol, FreshRenameIsCaptureFree hold; "
+                     "witnesses: error-free instances and alias spellings exist" % r3.distinct)
+    return D.tlc_cases(r), D.tlc_cases(r2), D.tlc_cases(r3)
 
 
 def observe(mos, p):
@@ -60,14 +73,14 @@ def main(tier):
     asts = design_level(rep)
     if asts is None:
         return rep.finish()
-    asts, masts = asts
+    asts, masts, iasts = asts
     rnd = V.rng("C16")
     wd = V.fresh_dir("C16")
     rnd.shuffle(asts)
     rnd.shuffle(masts)
     if tier == "quick":
         asts, masts = asts[:130], masts[:70]
-    asts = asts + masts
+    asts = asts + masts + iasts
     projs = []
     with ThreadPoolExecutor(max_workers=6) as ex:
         projs = [p for p in ex.map(lambda i: D.project_from_ast(asts[i], mos, os.path.join(wd, "t%04d" % i), 100000 + i), range(len(asts))) if p["ok"]]
